@@ -5,6 +5,7 @@ import (
 	"fmt"
 	"sort"
 	"strings"
+	"time"
 
 	"github.com/metrico/qryn/reader/model"
 	"github.com/prometheus/prometheus/model/labels"
@@ -54,7 +55,22 @@ func (d *MetricDB) Tables() (*chsim.DB, error) {
 		if s.Fp != 0 {
 			fp = s.Fp
 		}
-		ts = append(ts, []chsim.Value{dayOfData, fp, chsim.LabelsJSON(s.Labels), s.Labels["__name__"], uint64(2)})
+		// one index row per UTC day on which the series has samples, as the writer stores them
+		days := map[string]bool{}
+		for _, p := range s.Samples {
+			days[time.UnixMilli(p.TimestampMs).UTC().Format("2006-01-02")] = true
+		}
+		if len(days) == 0 {
+			days[dayOfData] = true
+		}
+		var dl []string
+		for d := range days {
+			dl = append(dl, d)
+		}
+		sort.Strings(dl)
+		for _, d := range dl {
+			ts = append(ts, []chsim.Value{d, fp, chsim.LabelsJSON(s.Labels), s.Labels["__name__"], uint64(2)})
+		}
 		if s.TwoIndexRows {
 			ts = append(ts, []chsim.Value{dayAfterData, fp, chsim.LabelsJSON(s.Labels), s.Labels["__name__"], uint64(2)})
 		}
